@@ -708,6 +708,63 @@ MUTANTS = [
 ]
 
 
+IDENT_CAP = 127       # further identifier characters after the first one (dots not counted): the library's documented limit
+SCALE = 5
+
+
+def repeat_bounds(run: Run, sess: rx.Session, progress: bool) -> None:
+    """Counted repeats beyond the text bound.  (a) structure + replay: every `{m,n}` with n > 44 in a literal / identifier rule
+    must carry a bound the reference has too (only the identifier's 127), else a witness of n+1 iterations is replayed.
+    (b) solver, at a reduced scale: the identifier rule with `{m,127}` replaced by `{m,5}` accepts, at N = 16, exactly what the
+    reference with the cap scaled to 1+5 identifier characters (dots not counted) demands - i.e. *what* the repeat counts is
+    right; a scaled counterexample is stretched back to the real scale (122 more characters in the first part) and replayed on
+    the live lexer."""
+    nmax = max(sess.engines)
+    kinds = list(ls.KINDS)
+    refs = {k: (v["ref"], rx.REF_FLAGS) for k, v in ls.KINDS.items()}
+    refs["ODATA_IDENTIFIER"] = (ls.identifier_capped(10 ** 6), rx.REF_FLAGS)
+    rx.check_repeat_caps(run, sess, nmax, kinds, {"ODATA_IDENTIFIER": [IDENT_CAP]}, refs)
+    caps = [lp["max"] for lp in sess.engines[nmax].nfa.loops if lp["rule"] == "ODATA_IDENTIFIER" and lp["max"] == IDENT_CAP]
+    if not caps:
+        run.notes.append("repeat-bounds: the identifier rule has no {m,127} repeat; the scaled obligation does not apply")
+        return
+    spec2 = rx.scaled_spec(sess.spec, "ODATA_IDENTIFIER", IDENT_CAP, SCALE)
+    if spec2 is None:
+        run.inconclusive("repeat-bounds:ODATA_IDENTIFIER[scaled]", "repeat-bounds(scaled, solver)", "could not scale the counted repeat")
+        return
+    try:
+        sess2 = rx.Session(run, {ls.BOUNDS["str"]}, [(ls.identifier_capped(SCALE), rx.REF_FLAGS), (ls.RESERVED, rx.REF_FLAGS)], spec=spec2)
+    except rx.NotEncodable as e:
+        run.inconclusive("repeat-bounds:ODATA_IDENTIFIER[scaled]", "repeat-bounds(scaled, solver)", f"not encodable: {e}")
+        return
+    ob = rx.ob_accept(sess2, f"repeat-bounds:ODATA_IDENTIFIER[cap scaled {IDENT_CAP}->{SCALE}]", "repeat-bounds(scaled, solver)",
+                      ls.BOUNDS["str"], "ODATA_IDENTIFIER", ls.identifier_capped(SCALE), ls.DELIM_IDENT, [], [ls.RESERVED])
+    scaled_replay = ob.replay
+    live = sess.spec
+
+    def replay(w: dict) -> dict:
+        r = scaled_replay(w)
+        if not r.get("consistent") or not r.get("reproduced"):
+            return r
+        s_, text = r["lexeme"], r["text"]
+        big = s_[0] + "x" * (IDENT_CAP - SCALE) + s_[1:]
+        big_text = big + text[len(s_):]
+        real = live.real_lex1(big_text)
+        ok_ref = re.fullmatch(ls.identifier_capped(IDENT_CAP), big, rx.REF_FLAGS) is not None
+        if ok_ref and list(real) != ["ODATA_IDENTIFIER", len(big)]:
+            return {"consistent": True, "reproduced": True, "lexeme": s_, "text": big_text, "prev": "", "expected": ["ODATA_IDENTIFIER", len(big)],
+                    "real": list(real), "how_to_replay": f"text = {s_[0]!r} + 'x' * {IDENT_CAP - SCALE} + {s_[1:] + text[len(s_):]!r}; "
+                                                         "list(ODataLexer().tokenize(text))",
+                    "what": f"a qualified name with {sum(c != '.' for c in big)} identifier characters and {big.count('.')} dots "
+                            f"({len(big)} characters: {s_[0]!r} + 'x'*{IDENT_CAP - SCALE} + {s_[1:]!r}) is cut: the lexer produces {real[0]} of "
+                            f"extent {real[1]} (scaled witness {s_!r} with the repeat bound {SCALE})"}
+        return {"consistent": True, "inconclusive": True,
+                "why": f"the scaled pattern mis-lexes {s_!r}, but the stretched text ({len(big)} characters) is lexed as one identifier by the live lexer"}
+
+    ob.replay = replay
+    sess2.drive([ob], timeout=60, max_rounds=1, progress=progress)
+
+
 def main() -> int:
     run = Run(PID, "model_checking")
     tier = run.tier
@@ -739,7 +796,8 @@ def main() -> int:
         "stand-alone time of day without seconds (hh:mm): the statement says hh:mm:ss[.f]",
         "durations without the 'duration' prefix (lexically a string), duration components longer than the digit bound in the "
         "accept direction", "geography collections nested deeper than one level", "identifiers longer than N - 1 characters "
-        "(the 128-character limit is beyond the bound)",
+        "(the 128-character limit is beyond the bound; the repeat-bounds family compares the counted-repeat structure at a reduced "
+        "scale and replays stretched witnesses, it does not prove the limit for all long names)",
         "float / calendar py_val are evaluated concretely per CrossHair path (CrossHair realises at float(), fromisoformat, isoparse)",
     ]
     run.assumptions += [
@@ -763,6 +821,7 @@ def main() -> int:
         return 2
     obs = lexer_obligations(sess, tier)
     sess.drive(obs, timeout=60 if tier == "quick" else 300, progress=progress)
+    repeat_bounds(run, sess, progress)
     if tier == "thorough" or os.environ.get("VERIF_SELFTEST"):
         rx.selftest(run, sess.spec, MUTANTS, sorted(set(ls.BOUNDS.values())), reference_patterns(),
                     lambda s2: lexer_obligations(s2, "thorough"), timeout=120, progress=progress)
